@@ -2,11 +2,12 @@
    Ghosts gj, g_defimm, g_norm, g_unit, g_applied are `extern` without definition: nondeterministic. */
 
 #ifndef COVER_ONLY
+bool nondet_bool(void);     /* an uninitialised `bool` local is not a canonical 0/1 value in CBMC */
 void h_FC_setToZero(void)   { struct ForceCache* f; FC_setToZero(f); }
 void h_FC_setToNaN(void)    { struct ForceCache* f; FC_setToNaN(f); }
-void h_FC_allocate(void)    { struct ForceCache* f; int nb, np; bool z; FC_allocate(f, nb, np, z); }
+void h_FC_allocate(void)    { struct ForceCache* f; int nb, np; bool z = nondet_bool(); FC_allocate(f, nb, np, z); }
 void h_Parameters_ctor(void){ struct Parameters* p; struct UnitVec3 d; Real g, z; const struct BoolArray* a; Parameters_ctor(p, d, g, z, a); }
-void h_setMobodIsImmune(void) { const struct GravityImpl* gi; struct State* s; MobilizedBodyIndex m; bool b; GI_setMobodIsImmune(gi, s, m, b); }
+void h_setMobodIsImmune(void) { const struct GravityImpl* gi; struct State* s; MobilizedBodyIndex m; bool b = nondet_bool(); GI_setMobodIsImmune(gi, s, m, b); }
 void h_realizeTopology(void) { struct GravityImpl* gi; struct State* s; GI_realizeTopology(gi, s); }
 void h_ensureForceCacheValid(void) { struct GravityImpl* gi; struct State* s; GI_ensureForceCacheValid(gi, s); }
 void h_getBodyForces(void) { const struct GravityImpl* gi; struct State* s; G_getBodyForces(gi, s); }
@@ -14,7 +15,7 @@ void h_getBodyForce(void) { const struct GravityImpl* gi; struct State* s; Mobil
 void h_getPotentialEnergy(void) { const struct GravityImpl* gi; struct State* s; G_getPotentialEnergy(gi, s); }
 void h_calcForce(void) { struct GravityImpl* gi; struct State* s; struct SVArray* bf; GI_calcForce(gi, s, bf); }
 void h_calcPotentialEnergy(void) { struct GravityImpl* gi; struct State* s; GI_calcPotentialEnergy(gi, s); }
-void h_setBodyIsExcluded(void) { const struct GravityImpl* gi; struct State* s; MobilizedBodyIndex m; bool b; G_setBodyIsExcluded(gi, s, m, b); }
+void h_setBodyIsExcluded(void) { const struct GravityImpl* gi; struct State* s; MobilizedBodyIndex m; bool b = nondet_bool(); G_setBodyIsExcluded(gi, s, m, b); }
 void h_setMagnitude(void) { const struct GravityImpl* gi; struct State* s; Real g; G_setMagnitude(gi, s, g); }
 void h_setZeroHeight(void) { const struct GravityImpl* gi; struct State* s; Real z; G_setZeroHeight(gi, s, z); }
 void h_setDownDirection(void) { const struct GravityImpl* gi; struct State* s; struct UnitVec3 d; G_setDownDirection(gi, s, d); }
@@ -25,7 +26,7 @@ void h_setGravityVector(void) { const struct GravityImpl* gi; struct State* s; s
    enforced on the real body in its own unit).
    ===================================================================================== */
 #define LEMMA_REQ(self, state) REQ_WF(self, state) REQ_INV(state) \
-  __CPROVER_requires(0 <= GI(self)->numEvaluations && GI(self)->numEvaluations < 1000000000000LL && state->stage >= Stage_Position && 1 <= gj)
+  __CPROVER_requires(0 <= GI(self)->numEvaluations && GI(self)->numEvaluations < 999999999000LL && state->stage >= Stage_Position && 1 <= gj)
 #define LEMMA_ASSIGNS(self, state) __CPROVER_assigns(ghost_threw, (state)->stage, (state)->ceMarked, (state)->params.g, (state)->params.z, (state)->params.d, (state)->fc.pe, \
    __CPROVER_object_whole((state)->params.mobodIsImmune.data), __CPROVER_object_whole((state)->fc.F_GB.data), GI(self)->numEvaluations)
 
@@ -60,22 +61,15 @@ __CPROVER_ensures(state->fc.pe.kind == PE_SUM && state->fc.pe.cj == 1 && SAME(st
   return G_getBodyForce(self, state, gj);
 }
 
-/* L3: ANY two State-based setters with arbitrary legal arguments, then getBodyForces + getPotentialEnergy:
-   the values read are the documented ones of the parameters NOW in the state, and the last setter's value is in the state */
-extern int g_w1, g_w2; extern Real g_x1, g_x2; extern struct UnitVec3 g_dn1, g_dn2; extern struct Vec3 g_gv; extern MobilizedBodyIndex g_mb1, g_mb2; extern bool g_ex1, g_ex2;
+/* L3: ANY State-based setter with arbitrary legal arguments, then getPotentialEnergy + getBodyForce(j):
+   the values read are the documented ones of the parameters NOW in the state, and the setter's value is in the state.
+   (Every setter contract requires and ensures only WF + INV, so this extends to any finite sequence of setters by induction.) */
+extern int g_w2; extern Real g_x2; extern struct UnitVec3 g_dn2; extern struct Vec3 g_gv; extern MobilizedBodyIndex g_mb2; extern bool g_ex2;
 extern struct PEVal g_outPE;
-static void vf_apply_setter(struct GravityImpl* self, struct State* state, int w, Real x, struct UnitVec3 dn, MobilizedBodyIndex mb, bool ex)
-{
-  if (w == 0)      G_setMagnitude(self, state, x);
-  else if (w == 1) G_setZeroHeight(self, state, x);
-  else if (w == 2) G_setDownDirection(self, state, dn);
-  else if (w == 3) G_setGravityVector(self, state, g_gv);
-  else             G_setBodyIsExcluded(self, state, mb, ex);
-}
 #define LEGAL_ARGS(self, w, x, dn, mb) (0 <= (w) && (w) <= 4 && ((w) == 0 ==> (x) >= 0) && ((w) == 2 ==> DIR_FINITE(dn)) && ((w) == 4 ==> (1 <= (mb) && (mb) < NB(GI(self)))))
-struct SpatialVec L_two_setters_then_get(struct GravityImpl* self, struct State* state)
+struct SpatialVec L_any_setter_then_get(struct GravityImpl* self, struct State* state)
 LEMMA_REQ(self, state)
-__CPROVER_requires(LEGAL_ARGS(self, g_w1, g_x1, g_dn1, g_mb1) && LEGAL_ARGS(self, g_w2, g_x2, g_dn2, g_mb2) && !(g_norm < 0))
+__CPROVER_requires(LEGAL_ARGS(self, g_w2, g_x2, g_dn2, g_mb2) && !(g_norm < 0) && (g_ex2 == false || g_ex2 == true))
 LEMMA_ASSIGNS(self, state) __CPROVER_assigns(g_outPE)
 __CPROVER_ensures(!ghost_threw && CE_VALID(state))
 __CPROVER_ensures(DOC_F_VAL(__CPROVER_return_value, state, gj))
@@ -86,14 +80,17 @@ __CPROVER_ensures(g_w2 == 2 ==> DIR_SAME(state->params.d, g_dn2))
 __CPROVER_ensures(g_w2 == 3 ==> SAME(state->params.g, g_norm))
 __CPROVER_ensures((g_w2 == 4 && g_mb2 == gj) ==> IMM(state, gj) == g_ex2)
 {
-  vf_apply_setter(self, state, g_w1, g_x1, g_dn1, g_mb1, g_ex1);
-  vf_apply_setter(self, state, g_w2, g_x2, g_dn2, g_mb2, g_ex2);
+  if (g_w2 == 0)      G_setMagnitude(self, state, g_x2);
+  else if (g_w2 == 1) G_setZeroHeight(self, state, g_x2);
+  else if (g_w2 == 2) G_setDownDirection(self, state, g_dn2);
+  else if (g_w2 == 3) G_setGravityVector(self, state, g_gv);
+  else                G_setBodyIsExcluded(self, state, g_mb2, g_ex2);
   g_outPE = G_getPotentialEnergy(self, state);
   return G_getBodyForce(self, state, gj);
 }
 void h_L1(void) { struct GravityImpl* gi; struct State* s; L_exclude_zero_reinclude(gi, s); }
 void h_L2(void) { struct GravityImpl* gi; struct State* s; L_zero_exclude_restore_include(gi, s); }
-void h_L3(void) { struct GravityImpl* gi; struct State* s; L_two_setters_then_get(gi, s); }
+void h_L3(void) { struct GravityImpl* gi; struct State* s; L_any_setter_then_get(gi, s); }
 #endif
 
 /* =====================================================================================
